@@ -200,7 +200,12 @@ Formats:
 
 	for _, m := range ms.Modules {
 		if mods[m.Name] == nil {
+			// Several revisions of a module may have been read: print the
+			// one the bare name denotes, not the one the map yields first.
 			mods[m.Name] = m
+			if latest := ms.Modules[m.Name]; latest != nil {
+				mods[m.Name] = latest
+			}
 			names = append(names, m.Name)
 		}
 	}
